@@ -32,9 +32,9 @@ def po2_to_qbits(quantizer: quantizer_impl.IQuantizer):
 
   (min_exp, max_exp) = quantizer.get_min_max_exp()
   # min_exp is number of bits needed on the right in qbits
-  # max_exp is number of bits needed on the left in qbits
-  unsigned_bits = min_exp + max_exp
-  int_bits = max_exp
+  # the largest value 2**max_exp needs max_exp + 1 bits on the left in qbits
+  unsigned_bits = min_exp + max_exp + 1
+  int_bits = max_exp + 1
   sign_bit = quantizer.is_signed
   bits = sign_bit + unsigned_bits
 
